@@ -1,4 +1,109 @@
-From OIDC Require Import Lib C13_RemoteKeys C13_spec.
-Theorem C13_placeholder : parse TransportErr = None.
-Proof. exact eq_refl. Qed.
-Print Assumptions C13_placeholder.
+(* C13 property theorems: rp.remoteKeySet under every schedule.  Statements only;
+   proofs are in theories/C13_*proofs.v.  [verify] (jws.Verify) is arbitrary.
+   exec verify (init skip) evs = the state after ANY list of events
+   (Arrive / Run / RunCtx / Cancel / FetchReturns / Commit), enabled or not. *)
+From OIDC Require Import Lib C13_RemoteKeys C13_proofs C13_thm_proofs C13_isolation_proofs C13_examples.
+
+(* A call finishes Ok only with a key k that FindMatchingKey selects from a key set
+   the endpoint really served - the cache the call read or the body of the download it
+   waited for - and that verifies the token. *)
+Theorem C13_accept_sound : forall verify skip evs t c k,
+  let w := exec verify (init skip) evs in
+  nth_error (w_callers w) t = Some c -> c_pc c = PDone (ROk k) ->
+  verify k (c_tok c) = true /\
+  exists ks, find_matching_key (t_kid (c_tok c)) (t_alg (c_tok c)) ks = inl k /\ In k ks /\
+    served (w_gens w) ks /\
+    ((c_gen c = None /\ c_read c = Some ks) \/
+     (exists g, c_gen c = Some g /\ res_of (w_gens w) g = Some (Some ks))).
+Proof. exact accept_sound. Qed.
+Print Assumptions C13_accept_sound.
+
+(* #fetches = #generations; a generation that has not been committed is THE in-flight one,
+   so at most one download is ever outstanding; a call entering the locked section while a
+   download is in flight joins it and starts none. *)
+Theorem C13_single_flight : forall verify skip evs,
+  let w := exec verify (init skip) evs in
+  w_fetches w = List.length (w_gens w) /\
+  (forall g gn, nth_error (w_gens w) g = Some gn -> g_committed gn = false -> w_inflight w = Some g) /\
+  (forall g1 g2 gn1 gn2, nth_error (w_gens w) g1 = Some gn1 -> nth_error (w_gens w) g2 = Some gn2 ->
+     g_ans gn1 = None -> g_ans gn2 = None -> g1 = g2) /\
+  (forall t c g, nth_error (w_callers w) t = Some c -> c_pc c = PLocked -> w_inflight w = Some g ->
+     w_gens (step verify w (Run t)) = w_gens w /\ w_fetches (step verify w (Run t)) = w_fetches w /\
+     pc_of (step verify w (Run t)) t = Some (PWaiting g)).
+Proof. exact single_flight. Qed.
+Print Assumptions C13_single_flight.
+
+(* A call joins at most one download; downloads <= calls; a finished call never moves again;
+   a call whose kid is not (uniquely) matched in the set it waited for is not accepted. *)
+Theorem C13_one_refresh : forall verify skip evs,
+  let w := exec verify (init skip) evs in
+  (forall t c, nth_error (w_callers w) t = Some c -> c_joins c <= 1) /\
+  w_fetches w <= List.length (w_callers w) /\
+  (forall t r evs', pc_of w t = Some (PDone r) -> pc_of (exec verify w evs') t = Some (PDone r)) /\
+  (forall t c r g ks e, nth_error (w_callers w) t = Some c -> c_pc c = PDone r -> c_gen c = Some g ->
+     res_of (w_gens w) g = Some (Some ks) ->
+     find_matching_key (t_kid (c_tok c)) (t_alg (c_tok c)) ks = inr e -> forall k, r <> ROk k).
+Proof. exact one_refresh. Qed.
+Print Assumptions C13_one_refresh.
+
+(* A call the cache cannot answer goes to the remote set (joining or starting exactly one
+   download); when the download it waits for served a matching verifying key it is accepted;
+   and under every schedule a call that finished after such a download was accepted unless
+   its own context was cancelled. *)
+Theorem C13_rotation : forall verify skip evs,
+  let w := exec verify (init skip) evs in
+  (forall t c, nth_error (w_callers w) t = Some c -> c_pc c = PCached ->
+     cached_try verify skip (w_cache w) (c_tok c) = None ->
+     let w2 := exec verify w [Run t; Run t] in
+     exists g, pc_of w2 t = Some (PWaiting g) /\ w_inflight w2 = Some g /\
+               (w_inflight w = None -> w_fetches w2 = S (w_fetches w) /\ g = List.length (w_gens w))) /\
+  (forall t c g ks k, nth_error (w_callers w) t = Some c -> c_pc c = PWaiting g ->
+     res_of (w_gens w) g = Some (Some ks) ->
+     find_matching_key (t_kid (c_tok c)) (t_alg (c_tok c)) ks = inl k -> verify k (c_tok c) = true ->
+     pc_of (step verify w (Run t)) t = Some (PDone (ROk k))) /\
+  (forall t c r g ks k, nth_error (w_callers w) t = Some c -> c_pc c = PDone r -> c_gen c = Some g ->
+     res_of (w_gens w) g = Some (Some ks) ->
+     find_matching_key (t_kid (c_tok c)) (t_alg (c_tok c)) ks = inl k -> verify k (c_tok c) = true ->
+     r = ROk k \/ (r = RCtx /\ c_cancelled c = true)).
+Proof. exact rotation. Qed.
+Print Assumptions C13_rotation.
+
+(* The cache changes only when a download that parsed is committed. A download that failed
+   (transport error, non-200, not a JSON object with a keys array) leaves the cache as it was,
+   fails everybody who waits for it and lets nobody through. *)
+Theorem C13_failure_keeps_cache : forall verify skip evs,
+  let w := exec verify (init skip) evs in
+  (forall e, w_cache (step verify w e) = w_cache w \/
+     exists g gn r ks, e = Commit g /\ nth_error (w_gens w) g = Some gn /\ g_ans gn = Some r /\
+                       g_committed gn = false /\ parse r = Some ks /\ w_cache (step verify w e) = ks) /\
+  (forall g gn r, nth_error (w_gens w) g = Some gn -> g_ans gn = Some r -> parse r = None ->
+     w_cache (step verify w (Commit g)) = w_cache w /\
+     (forall t c res, nth_error (w_callers w) t = Some c -> c_gen c = Some g -> c_pc c = PDone res ->
+        res = RFetch \/ (res = RCtx /\ c_cancelled c = true)) /\
+     (forall t c, nth_error (w_callers w) t = Some c -> c_pc c = PWaiting g ->
+        pc_of (step verify w (Run t)) t = Some (PDone RFetch))).
+Proof. exact failure_keeps_cache. Qed.
+Print Assumptions C13_failure_keeps_cache.
+
+(* What counts as failed, and that a well-formed document without usable keys is a VALID
+   empty key set (it does replace the cache; this is not a lost cache). *)
+Theorem C13_failed_or_malformed :
+  parse TransportErr = None /\ (forall b, parse (Http false b) = None) /\
+  (forall ok, parse (Http ok BadDoc) = None) /\
+  (forall es, parse (Http true (Doc es)) = Some (keep es)) /\
+  parse (Http true (Doc [])) = Some [] /\ (forall n, parse (Http true (Doc (repeat None n))) = Some []).
+Proof. exact parse_kinds. Qed.
+Print Assumptions C13_failed_or_malformed.
+
+(* Cancel isolation: delete every cancellation of caller t' from ANY schedule - the cache,
+   the in-flight slot, all downloads, the request count and every other caller's complete
+   state (pc, result, history) are exactly the same.  So a caller's result is a function of
+   its own cancellation and the endpoint's answers only. *)
+Theorem C13_cancel_isolation : forall verify skip evs t',
+  let w1 := exec verify (init skip) evs in
+  let w2 := exec verify (init skip) (drop_cancels t' evs) in
+  w_cache w1 = w_cache w2 /\ w_inflight w1 = w_inflight w2 /\ w_gens w1 = w_gens w2 /\
+  w_fetches w1 = w_fetches w2 /\ List.length (w_callers w1) = List.length (w_callers w2) /\
+  forall t, t <> t' -> nth_error (w_callers w1) t = nth_error (w_callers w2) t.
+Proof. exact cancel_isolation. Qed.
+Print Assumptions C13_cancel_isolation.
